@@ -87,8 +87,15 @@ class UAIReader(object):
             )
             grammar += function_grammar
 
+        # Python's str(float) switches to exponent notation below 1e-4 ("1e-05"): accept it.
         floatnumber = Combine(
-            Word(nums) + Optional(Literal(".") + Optional(Word(nums)))
+            Word(nums)
+            + Optional(Literal(".") + Optional(Word(nums)))
+            + Optional(
+                (Literal("e") | Literal("E"))
+                + Optional(Literal("-") | Literal("+"))
+                + Word(nums)
+            )
         )
         for function in range(0, self.no_functions):
             no_values_grammar = Word(nums).setResultsName(
@@ -233,12 +240,16 @@ class UAIReader(object):
                 values = self.grammar.parseString(self.network)[
                     "fun_values_" + str(function)
                 ]
+                if isinstance(values, str):
+                    values = [values]
                 tables.append((child_var, list(values)))
             elif self.network_type == "MARKOV":
                 function_variables = ["var_" + str(var) for var in function_variables]
                 values = self.grammar.parseString(self.network)[
                     "fun_values_" + str(function)
                 ]
+                if isinstance(values, str):
+                    values = [values]
                 tables.append((function_variables, list(values)))
         return tables
 
